@@ -1,11 +1,22 @@
 /-
   C10 — State resolution returns the state the room version's algorithm defines.
-  (first instalment: algorithm selection per room version, regenerated from eventversion.go;
-   the stage-wise refinement theorems are in progress, see DESIGN.md §5 C10)
+
+  The DEFINITION is `VModel/StateResSpec.lean` (declarative, stage by stage, with the library's refinements R1–R9 of
+  DESIGN.md §6.2); the theorems below say that the executable model `VModel/StateRes.lean` (tied to the Go code by the
+  correspondence check) computes it: stage-wise refinement theorems, their composition for algorithms 2 (v2) and
+  3 (v2.1), version 1, and the entry-point dispatch on the regenerated room-version table.
+
+  Hypotheses used throughout (`V.StateResSpec.WF`, `Ranked`): event IDs identify events within the input, every state
+  set is a state map (no event twice, one event per key), and the auth graph of the supplied events is acyclic
+  (some rank on IDs decreases along auth_events).  `V.StateResSpec.Example` is a concrete non-trivial instance.
 -/
 import VModel.StateRes
+import VProofs.StateResSpecUnique
+import VProofs.StateResSpecExample
 namespace V.C10
-open V V.StateRes
+open V V.StateRes V.StateResSpec
+
+/-! ## 8. Entry point: the algorithm is selected by the regenerated table -/
 
 /-- Which algorithm each registered room version selects: v1 for "1"; v2 for 2–11 and the unstable versions based
     on them; v2.1 for "12" and org.matrix.hydra.11.  Breaks when someone edits the table. -/
@@ -26,5 +37,190 @@ theorem entrypoint_selects (sha : ID → Bytes) (ver : Bytes) (sets : List (List
       else none := by
   unfold resolveConflictsNew
   simp only [h]
+
+/-! ## 1. Closures = reachability (no acyclicity needed: the fuel bound is a pigeonhole) -/
+
+/-- With the fuel the model uses (any fuel ≥ |map| + 1) the auth closure of `start` is the set of IDs of the events
+    reachable from `start` by ≥ 1 auth step inside the auth map (`IdNodup m`: IDs identify events within the map,
+    which `eventMapFromEvents` guarantees: `eventMap_idNodup`). -/
+theorem authClosure_iff_reachable {m : List Event} (hm : IdNodup m) (start : List Event) {fuel : Nat}
+    (hfuel : m.length + 1 ≤ fuel) (id : ID) :
+    id ∈ authClosure m fuel start [] ↔ ∃ s ∈ start, ∃ y, y.eventID = id ∧ ReachPlus (· ∈ m) s y :=
+  V.StateResSpec.authClosure_iff_reachable hm start hfuel id
+
+example (auth : List Event) : IdNodup (eventMapFromEvents auth) := eventMap_idNodup auth
+
+/-- R3: the control closure started from the roots (whose IDs are recorded) adds what is reachable from them through
+    events of the conflicted map. -/
+theorem controlClosure_iff {cm : List Event} (hm : IdNodup cm) (roots : List Event) (rootIDs : List ID) {fuel : Nat}
+    (hfuel : cm.length + 1 ≤ fuel) (h0 : ∀ x ∈ cm, x.eventID ∈ rootIDs → x ∈ roots) (id : ID) :
+    id ∈ controlClosure cm fuel roots rootIDs ↔
+      id ∈ rootIDs ∨ ∃ r ∈ roots, ∃ y, y.eventID = id ∧ ReachPlus (· ∈ cm) r y :=
+  V.StateResSpec.controlClosure_iff hm roots rootIDs hfuel h0 id
+
+/-! ## 2. Conflicted / unconflicted -/
+
+/-- v2 / v2.1: an event is unconflicted iff EVERY state set maps its key to it and to nothing else; every other state
+    event of the state sets is conflicted. -/
+theorem split_eq_spec (sets : List (List Event)) (hids : IDsIdentify (· ∈ sets.flatten)) (hnd : ∀ S ∈ sets, S.Nodup) :
+    (∀ e, e ∈ (splitConflictedUnconflicted false sets).1 ↔ Conflicted sets e) ∧
+    (∀ e, e ∈ (splitConflictedUnconflicted false sets).2 ↔ Unconflicted sets e) :=
+  V.StateResSpec.split_eq_spec sets hids hnd
+
+example : IDsIdentify (· ∈ Example.exSets.flatten) ∧ ∀ S ∈ Example.exSets, S.Nodup :=
+  ⟨fun a b ha hb => Example.exWF.ids a b (List.mem_append_left _ ha) (List.mem_append_left _ hb),
+   fun S hS => (Example.exWF.maps S hS).1⟩
+
+/-- R2 (version 1): a key with a single candidate event overall is unconflicted. -/
+theorem split_v1_eq_spec (sets : List (List Event)) (hids : IDsIdentify (· ∈ sets.flatten)) :
+    (∀ e, e ∈ (splitConflictedUnconflicted true sets).1 ↔ ConflictedV1 sets e) ∧
+    (∀ e, e ∈ (splitConflictedUnconflicted true sets).2 ↔ UnconflictedV1 sets e) :=
+  V.StateResSpec.split_v1_eq_spec sets hids
+
+/-! ## 3. Auth difference, conflicted subgraph -/
+
+/-- algorithm 2: the events added to the conflicted set are ⋃ chains \ ⋂ chains of the full auth chains of the state sets -/
+theorem authDifference_eq_spec {m : List Event} (hm : IdNodup m) (conflicted : List Event) (sets : List (List Event))
+    (y : Event) : y ∈ authDifferenceNew 2 m conflicted sets ↔ AuthDifference (· ∈ m) sets y :=
+  V.StateResSpec.authDifference_eq_spec hm conflicted sets y
+
+/-- v2.1: the IDs of the conflicted subgraph: events on an auth path from a conflicted event of a state set to a
+    conflicted event (`U`: a universe of events identified by their IDs that contains the inputs). -/
+theorem subgraph_eq_spec {U : Event → Prop} (hU : IDsIdentify U) {m : List Event} (hm : IdNodup m)
+    (hmU : ∀ x ∈ m, U x) {sets : List (List Event)} (hSU : ∀ S ∈ sets, ∀ x ∈ S, U x) (conflicted : List Event) (id : ID) :
+    id ∈ subIDs 3 m conflicted sets ↔
+      ∃ x, x.eventID = id ∧ ConflictedSubgraph (· ∈ m) (· ∈ conflicted) sets x :=
+  V.StateResSpec.subgraph_eq_spec hU hm hmU hSU conflicted id
+
+/-- algorithm 3 (v2.1): auth difference ∪ conflicted subgraph -/
+theorem authDifference21_eq_spec {U : Event → Prop} (hU : IDsIdentify U) {m : List Event} (hm : IdNodup m)
+    (hmU : ∀ x ∈ m, U x) {sets : List (List Event)} (hSU : ∀ S ∈ sets, ∀ x ∈ S, U x) {conflicted : List Event}
+    (hcU : ∀ x ∈ conflicted, U x) (y : Event) :
+    y ∈ authDifferenceNew 3 m conflicted sets ↔
+      AuthDifference (· ∈ m) sets y ∨ ConflictedSubgraph (· ∈ m) (· ∈ conflicted) sets y :=
+  V.StateResSpec.authDifference21_eq_spec hU hm hmU hSU hcU y
+
+/-! ## 4. Control set (R3) and the rest -/
+
+theorem controlSet_eq_spec {U : Event → Prop} {full confMap unconf : List Event} (hU : IDsIdentify U)
+    (hfU : ∀ x ∈ full, U x) (hcU : ∀ x ∈ confMap, U x) (hcm : IdNodup confMap) (x : Event) :
+    x ∈ controlEventsOf full confMap (unconf.map (·.eventID)) ↔
+      ControlSet (· ∈ confMap) (· ∈ full) (· ∈ unconf) x :=
+  V.StateResSpec.controlSet_eq_spec hU hfU hcU hcm x
+
+theorem otherSet_eq_spec {U : Event → Prop} {full confMap unconf : List Event} (hU : IDsIdentify U)
+    (hfU : ∀ x ∈ full, U x) (hcU : ∀ x ∈ confMap, U x) (hcm : IdNodup confMap) (x : Event) :
+    x ∈ othersOf full confMap (unconf.map (·.eventID)) ↔
+      OtherSet (· ∈ confMap) (· ∈ full) (· ∈ unconf) x :=
+  V.StateResSpec.otherSet_eq_spec hU hfU hcU hcm x
+
+/-! ## 5. Reverse topological power ordering -/
+
+/-- `IsPowerOrder` determines its output (only the asymmetry of the comparison is needed) -/
+theorem powerOrder_unique {α : Type} {lt child : α → α → Prop} (hasym : ∀ a b, lt a b → ¬ lt b a) {input out₁ out₂ : List α}
+    (h1 : IsPowerOrder lt child input out₁) (h2 : IsPowerOrder lt child input out₂) : out₁ = out₂ :=
+  IsPowerOrder.eq_of hasym h1 h2
+
+/-- Kahn's algorithm as the library runs it (generic in the key, the strict total comparator and the parent
+    relation) produces THE power order of its input: a duplicate-free enumeration of the distinct input in which
+    every event comes after its parents and, read from the end, each event is the greatest free one (R8 aside: for
+    acyclic input there are no strays). -/
+theorem kahn_is_power_order {κ : Type} (lt : κ → κ → Bool) (parents : Event → List ID) (nodes0 : List (KNode κ))
+    (hlt : StrictTotal lt)
+    (hid : ∀ n ∈ nodes0, ∀ n' ∈ nodes0, n.ev.eventID = n'.ev.eventID → n = n')
+    (hkey : ∀ n ∈ nodes0, ∀ n' ∈ nodes0, n.key = n'.key → n = n')
+    (hacyc : ∃ rk : ID → Nat, ∀ n ∈ nodes0, ∀ p ∈ parents n.ev, (∃ n' ∈ nodes0, n'.ev.eventID = p) → rk p < rk n.ev.eventID) :
+    IsPowerOrder (fun a b => lt a.key b.key = true) (fun a x => x.ev.eventID ∈ parents a.ev) nodes0
+      (kahnNodes lt parents nodes0) ∧ kahn lt parents nodes0 = (kahnNodes lt parents nodes0).map (·.ev) :=
+  ⟨kahnNodes_is_power_order lt parents nodes0 hlt hid hkey hacyc, kahn_eq_map lt parents nodes0⟩
+
+/-- the ordering of power events: by sender power (R4) descending, timestamp, event ID -/
+theorem reverseTopoAuth_is_power_order (m : List Event) (createEv : Option Event) (evs : List Event)
+    (hid : ∀ a ∈ evs, ∀ b ∈ evs, a.eventID = b.eventID → a = b)
+    (hacyc : ∃ rk : ID → Nat, ∀ e ∈ evs, ∀ p ∈ e.authEventIDs, (∃ e' ∈ evs, e'.eventID = p) → rk p < rk e.eventID) :
+    IsReverseTopoPowerOrder m createEv evs (reverseTopoAuth m createEv evs) :=
+  V.StateResSpec.reverseTopoAuth_is_power_order m createEv evs hid hacyc
+
+example : ∃ rk : ID → Nat, ∀ e ∈ Example.exAuth, ∀ p ∈ e.authEventIDs, (∃ e' ∈ Example.exAuth, e'.eventID = p) →
+    rk p < rk e.eventID :=
+  ranked_kahn Example.exRanked Example.exAuth (fun _ h => List.mem_append_right _ h)
+
+/-! ## 6. Mainline (R5) -/
+
+theorem mainline_eq_spec {m : List Event} (hac : Acyclic (· ∈ m)) (pl : Option Event) :
+    IsMainline m pl (createMainline m pl) := V.StateResSpec.mainline_eq_spec hac pl
+
+theorem mainline_unique {m : List Event} {pl : Option Event} {l₁ l₂ : List Event} (h1 : IsMainline m pl l₁)
+    (h2 : IsMainline m pl l₂) : l₁ = l₂ := IsMainline.unique h1 h2
+
+/-- the normal case (at most one power-levels auth event each): the mainline is the chain of power-levels
+    ancestors of the resolved power-levels event, oldest first -/
+theorem mainline_normal_case {m : List Event} (hac : Acyclic (· ∈ m)) {e : Event} {c : List Event} (h : PLChain m e c) :
+    createMainline m (some e) = c.reverse := createMainline_of_chain hac h
+
+theorem mainlinePos_eq_spec (ml : List Event) (id : ID) : mainlinePos ml id = posOf ml id := mainlinePos_eq_posOf ml id
+
+theorem posSteps_eq_spec {m ml : List Event} (hac : Acyclic (· ∈ m)) (e : Event) :
+    MainlinePosSteps m ml e (firstMainline m ml (m.length + 2) e (0, 0)) := V.StateResSpec.posSteps_eq_spec hac e
+
+theorem posSteps_normal_case {m ml : List Event} (hac : Acyclic (· ∈ m)) {e : Event} {r : Nat × Nat}
+    (h : ChainWalk m ml e 0 r) : firstMainline m ml (m.length + 2) e (0, 0) = r := firstMainline_of_chainWalk hac h
+
+/-- mainline ordering = sort by (position, steps, timestamp, ID) -/
+theorem mainlineOrdering_eq_spec {m : List Event} (hac : Acyclic (· ∈ m)) (ml evs : List Event) :
+    IsMainlineOrder m ml evs (mainlineOrdering m ml evs) := V.StateResSpec.mainlineOrdering_eq_spec hac ml evs
+
+/-- a sort by a total order on distinct events is THE sorted permutation -/
+theorem mainlineOrdering_unique {m : List Event} (hac : Acyclic (· ∈ m)) {ml evs out : List Event}
+    (hid : ∀ a ∈ evs, ∀ b ∈ evs, a.eventID = b.eventID → a = b) (h : IsMainlineOrder m ml evs out) :
+    out = mainlineOrdering m ml evs := V.StateResSpec.mainlineOrdering_unique hac hid h
+
+example : Acyclic (· ∈ eventMapFromEvents Example.exAuth) :=
+  ranked_acyclic Example.exRanked (fun _ hx => List.mem_append_right _ (mem_eventMap hx))
+
+/-! ## 7. Iterative auth checks, composition -/
+
+/-- iterative auth checks are a left fold (definitional) … -/
+theorem iterativeAuth_eq_fold (m : List Event) (rejected : List ID) (s : State) (evs : List Event) :
+    authAndApply m rejected s evs = evs.foldl (modelAuthStep m rejected) s := rfl
+
+/-- … whose step is the defined one (R7: partial state per needed key, else the event's own non-rejected auth events) -/
+theorem iterativeAuth_eq_spec (m : List Event) (rejected : List ID) (evs : List Event) {s : State} {f : SMap}
+    (h : StateRel s f) (hk : KeysNodup s) :
+    StateRel (authAndApply m rejected s evs) (iterAuth m rejected f evs) ∧ KeysNodup (authAndApply m rejected s evs) :=
+  authAndApply_rel m rejected evs h hk
+
+/-- **Algorithm 2 (room versions 2–11).** The resolved state is one that `Resolves` per the definition, and the IDs the
+    model returns are exactly its events. -/
+theorem resolveV2_eq_spec (sets : List (List Event)) (auth : List Event) (rejected : List ID) (hwf : WF sets auth)
+    (hr : Ranked (sets.flatten ++ auth)) :
+    ∃ result : SMap, Resolves 2 sets (eventMapFromEvents auth) auth rejected result ∧
+      ∀ id, id ∈ (resolveV2New 2 sets auth rejected).result ↔ ∃ k e, result k = some e ∧ e.eventID = id := by
+  obtain ⟨result, h1, h2, h3⟩ := resolveV2State_resolves 2 (Or.inl rfl) sets auth rejected hwf hr
+  refine ⟨result, h1, fun id => ?_⟩
+  rw [resolveV2New_result]
+  exact result_ids_iff h3 h2 id
+
+/-- **Algorithm 3 = v2.1 (room version 12).** Same, with the conflicted subgraph added and the empty starting state. -/
+theorem resolveV2_1_eq_spec (sets : List (List Event)) (auth : List Event) (rejected : List ID) (hwf : WF sets auth)
+    (hr : Ranked (sets.flatten ++ auth)) :
+    ∃ result : SMap, Resolves 3 sets (eventMapFromEvents auth) auth rejected result ∧
+      ∀ id, id ∈ (resolveV2New 3 sets auth rejected).result ↔ ∃ k e, result k = some e ∧ e.eventID = id := by
+  obtain ⟨result, h1, h2, h3⟩ := resolveV2State_resolves 3 (Or.inr rfl) sets auth rejected hwf hr
+  refine ⟨result, h1, fun id => ?_⟩
+  rw [resolveV2New_result]
+  exact result_ids_iff h3 h2 id
+
+example : WF Example.exSets Example.exAuth ∧ Ranked (Example.exSets.flatten ++ Example.exAuth) ∧
+    Conflicted Example.exSets Example.eA :=
+  ⟨Example.exWF, Example.exRanked, Example.exConflicted⟩
+
+/-- The definition determines the resolved state (given at most one conflicted create event): the state above is THE
+    state the algorithm defines. -/
+theorem resolves_unique {algo : Nat} {sets : List (List Event)} {m auth : List Event} {rejected : List ID}
+    (hU : IDsIdentify (fun e => e ∈ sets.flatten ++ m))
+    (hc : ∀ a b, Conflicted sets a → Conflicted sets b → a.isCreate = true → b.isCreate = true → a = b)
+    {r₁ r₂ : SMap} (h1 : Resolves algo sets m auth rejected r₁) (h2 : Resolves algo sets m auth rejected r₂) : r₁ = r₂ :=
+  Resolves.unique hU hc h1 h2
 
 end V.C10
